@@ -23,6 +23,7 @@ class Model:
     def __init__(self, cfg):
         self.cfg = cfg
         self.objs = set()
+        self.maybe = set()   # objects that MAY exist: content of a store_object whose tagging was rejected
         self.pidref = {}
         self.cidref = {}
         self.meta = {}
@@ -31,6 +32,7 @@ class Model:
     def copy(self):
         m = Model(self.cfg)
         m.objs = set(self.objs)
+        m.maybe = set(self.maybe)
         m.pidref = dict(self.pidref)
         m.cidref = {k: list(v) for k, v in self.cidref.items()}
         m.meta = dict(self.meta)
@@ -42,6 +44,7 @@ class Model:
         cfg = self.cfg
         return {
             "objects": {c: (len(self.bytes_of[c]), c) for c in self.objs},
+            "maybe_objects": {c: (len(self.bytes_of[c]), c) for c in self.maybe},
             "pidrefs": {cfg.H(p): c for p, c in self.pidref.items()},
             "cidrefs": {c: sorted(l) for c, l in self.cidref.items()},
             "metadata": {(cfg.H(p), cfg.H(p + f)): hashlib.sha256(b).hexdigest()
@@ -64,6 +67,7 @@ class Model:
         val = {"cid": cid, "size": len(data), "keys": keys}
         if pid is None:
             self.objs.add(cid)
+            self.maybe.discard(cid)
             return {"ok": val}
         if not size_ok or not cks_ok:
             errs = set()
@@ -71,11 +75,17 @@ class Model:
                 errs.add("NonMatchingObjSize")
             if not cks_ok:
                 errs.add("NonMatchingChecksum")
+            if pid in self.pidref:
+                errs |= ALREADY     # which of the two refusals comes first is not specified
             return {"err": errs}
+        if pid in self.pidref:
+            # tagging is refused; the property allows (does not require) the object to stay, unreferenced
+            if cid not in self.objs:
+                self.maybe.add(cid)
+            return {"err": ALREADY}
         self.objs.add(cid)
+        self.maybe.discard(cid)
         e = self.tag(pid, cid)
-        if "err" in e:
-            return e
         return {"ok": val}
 
     def delete(self, pid):
@@ -88,12 +98,15 @@ class Model:
         if not l:
             self.cidref.pop(cid, None)
             self.objs.discard(cid)
+            self.maybe.discard(cid)
         for k in [k for k in self.meta if k[0] == pid]:
             del self.meta[k]
         return {"ok": None}
 
     def dii(self, cid, size_ok, cks_ok):
         if cid not in self.objs:
+            if cid in self.maybe and not (size_ok and cks_ok) and cid not in self.cidref:
+                self.maybe.discard(cid)
             return {"any": True}  # stale ObjectMetadata: only "no change" is required
         if size_ok and cks_ok:
             return {"ok": None}
@@ -129,6 +142,8 @@ class Model:
         if pid not in self.pidref:
             return {"err": UNBOUND}
         cid = self.pidref[pid]
+        if cid in self.maybe:
+            return {"ok_or_err": (self.bytes_of[cid], OBJ_MISSING)}
         if cid not in self.objs:
             return {"err": OBJ_MISSING}
         return {"ok": self.bytes_of[cid]}
@@ -308,6 +323,8 @@ class Run:
         elif k == "hexd":
             r.out = call(s.get_hex_digest, op["pid"], op["algo"])
             e = m.lookup(op["pid"])
+            if "ok_or_err" in e:
+                e = {"ok_or_err": (hashlib.new(gen.canon(op["algo"]), e["ok_or_err"][0]).hexdigest(), e["ok_or_err"][1])}
             r.exp = {"ok": hashlib.new(gen.canon(op["algo"]), e["ok"]).hexdigest()} if "ok" in e else e
         elif k == "reopen":
             r.out = call(self.factory)
@@ -334,6 +351,11 @@ class Run:
         if r.skipped or "any" in r.exp:
             return None
         o, e = r.out, r.exp
+        if "ok_or_err" in e:
+            val, errs = e["ok_or_err"]
+            if is_ok(o):
+                return None if (not check_value or o[1] == val) else f"returned {_short(o[1])}, expected {_short(val)}"
+            return None if o[1] in errs else f"raised {o[1]}, expected success or one of {sorted(errs)}"
         if "err" in e:
             if is_ok(o):
                 return f"call returned normally, expected one of {sorted(e['err'])}"
@@ -366,8 +388,9 @@ class Run:
 
     def objects_problem(self, r):
         img, a = r.model.image(), r.alpha
-        if a["objects"] != img["objects"]:
-            return "objects differ: disk=%s model=%s" % (_dd(a["objects"], img["objects"]))
+        disk = {c: v for c, v in a["objects"].items() if not (c in img["maybe_objects"] and img["maybe_objects"][c] == v)}
+        if disk != img["objects"]:
+            return "objects differ: disk=%s model=%s" % (_dd(disk, img["objects"]))
         return None
 
     def meta_problem(self, r):
